@@ -100,8 +100,9 @@ def lit(t: str, rng: random.Random, small: bool = False) -> str:
     if h == "list":
         # never empty: an empty display in a nested position has no inferable element type for mypy
         items = [lit(a[0], rng, small) for _ in range(rng.choice([1, 1, 2, 3, 3, 5]))]
-        if a[0].startswith("Optional[") and items[0] == "None":
-            items[0] = lit(a[0][9:-1], rng, small)  # [None] alone would be inferred as list[None]
+        if a[0].startswith("Optional["):
+            # [None] alone would be inferred as list[None], [1, 2] as list[int]: always one value and one None
+            items = [lit(a[0][9:-1], rng, small), "None"] + items[2:]
         return "[" + ", ".join(items) + "]"
     if h == "set":
         n = rng.choice([1, 2, 3, 4])
@@ -109,9 +110,12 @@ def lit(t: str, rng: random.Random, small: bool = False) -> str:
     if h == "dict":
         n = rng.choice([1, 2, 3, 4])
         vals = [lit(a[1], rng, small) for _ in range(n)]
-        if a[1].startswith("Optional[") and vals[0] == "None":
-            vals[0] = lit(a[1][9:-1], rng, small)
-        return "{" + ", ".join(f"{lit(a[0], rng, True)}: {v}" for v in vals) + "}"
+        if a[1].startswith("Optional["):
+            vals = [lit(a[1][9:-1], rng, small), "None"] + vals[2:]
+        keys = [lit(a[0], rng, True) for _ in vals]
+        if len(vals) == 2 and keys[0] == keys[1] and a[1].startswith("Optional["):
+            keys[1] = lit(a[0], rng, False)
+        return "{" + ", ".join(f"{k}: {v}" for k, v in zip(keys, vals)) + "}"
     if h == "tuple":
         return "(" + ", ".join(lit(x, rng, small) for x in a) + ("," if len(a) == 1 else "") + ")"
     raise ValueError(t)
@@ -445,7 +449,7 @@ def _build_tables() -> None:
     _p(A, "getattr({0}, 'v')", [A], "any.getattr_fn", 0.4)
     _p(A, "next(iter({0}))", [A], "any.next_iter", 0.5)
     _p(A, "{0}[{1}]", ["list[Any]", I], "list.getitem[Any]", 1.0)
-    _p(A, "{0}.get({1})", ["dict[Any, Any]", A], "dict.get[Any]", 0.8)
+    _p(A, "{0}.get({1}, {2})", ["dict[Any, Any]", A, A], "dict.get[Any]", 0.8)
     _p(A, "{0}[{1}]", ["dict[Any, Any]", A], "dict.getitem[Any]", 0.8)
     _p(A, "{0}.pop()", ["v:list[Any]"], "list.pop[Any]", 0.4)
     _p(A, "sum({0}, {1})", ["list[Any]", A], "any.sum", 0.3)
